@@ -12,6 +12,8 @@ func checkC08(p *Program, tier string) *Result {
 	// 'or sent': the header the loop records after the handler is the reply's (R-MIRROR, the one clause C08 needs)
 	sub := newResult("C06")
 	ruleMirror(p, sub)
+	r.takeFrom(sub, "R-MIRROR", ":sequence")
+	r.takeFrom(sub, "R-MIRROR", "options-are-plain-setters")
 	if r.takeFrom(sub, "R-MIRROR", "stored-header-advances") == 0 {
 		r.undecided("R-MIRROR", "stored-header-advances", "-", "the clause that the response's stored header advances to the reply header was not produced")
 	}
